@@ -42,6 +42,7 @@ def run(prog, tier):
     R.unproven += R2.unproven
     check_enum_start(R, prog)
     check_index_order(R, prog)
+    check_wildcard_none(R, prog)
     from ._shared import check_no_shared_state
     check_no_shared_state(R, prog, P, ['cnfgen.formula'], 120)
     return R
@@ -439,3 +440,43 @@ def check_index_order(R, prog):
         R.ok("INDEX-ORDER", "BipartiteEdgesVariables.indices: edges by left vertex then sorted right neighbour (offset order)", fi.key)
     else:
         R.unknown("INDEX-ORDER", "BipartiteEdgesVariables.indices", fi.key, "unrecognised shape")
+
+
+def check_wildcard_none(R, prog):
+    """WILDCARD-NONE: in the variable groups an index position is a wildcard exactly when it is None.  A name that holds an index
+    pattern element (taken from `pattern[..]`, from iterating the pattern, or a parameter whose default is None) is never used as a
+    bare truth value: `if i:` also treats the index 0 as `absent`, so an out-of-range 0 is silently accepted as a wildcard."""
+    from ._shared import truth_tested_names
+    m = prog.modules[VARS]
+    n = 0
+    for cname, ci in sorted(m.classes.items()):
+        for mname, fi in sorted(ci.methods.items()):
+            a = fi.node.args
+            cands = set()
+            pos = a.posonlyargs + a.args
+            for arg, d in zip(pos[len(pos) - len(a.defaults):], a.defaults):
+                if isinstance(d, ast.Constant) and d.value is None and arg.arg not in ("labelfmt", "label", "name", "description"):
+                    cands.add(arg.arg)
+            pat = {a.vararg.arg} if a.vararg else set()
+            pat |= {x.arg for x in pos if x.arg == "pattern"}
+            for st in stmts_in(fi.node):
+                if isinstance(st, ast.Assign) and len(st.targets) == 1:
+                    t, v = st.targets[0], st.value
+                    if isinstance(t, ast.Name) and isinstance(v, ast.Subscript) and isinstance(v.value, ast.Name) and v.value.id in pat:
+                        cands.add(t.id)
+                    if isinstance(t, ast.Tuple) and isinstance(v, ast.Name) and v.id in pat:
+                        cands |= {x.id for x in t.elts if isinstance(x, ast.Name)}
+                if isinstance(st, ast.For) and any(isinstance(x, ast.Name) and x.id in pat for x in ast.walk(st.iter)):
+                    cands |= {x.id for x in ast.walk(st.target) if isinstance(x, ast.Name)}
+            if not cands:
+                continue
+            tested = truth_tested_names(fi.node)
+            for c in sorted(cands):
+                n += 1
+                if c in tested:
+                    R.bad(F("WILDCARD-NONE", fi, "%s.%s tests index `%s` for truth" % (cname, mname, c),
+                            "`%s` is an index that may be None (wildcard); used as a truth value the index 0 counts as a wildcard too, so an "
+                            "index outside the group is accepted instead of refused: test `is None`" % c, tested[c]))
+                else:
+                    R.ok("WILDCARD-NONE", "%s.%s: `%s` only compared with None" % (cname, mname, c), fi.key, nontrivial=False)
+    R.floor("WILDCARD-NONE", n, 10)
